@@ -31,7 +31,7 @@ def normalise(text):
     import ctparse.ctparse  # noqa
 
     m = sys.modules["ctparse.ctparse"]
-    return re.sub("#[a-zA-Z0-9_-]+", "", m._preprocess_string(text)).strip()
+    return re.sub(" {2,}", " ", re.sub("#[a-zA-Z0-9_-]+", "", m._preprocess_string(text)).strip())
 
 
 def all_matches(norm):
